@@ -13,7 +13,8 @@ FUNCTIONS = ["gcmpy.covers.mpcc.MPCC", "networkx.enumerate_all_cliques (real imp
 STUBS = ["random.shuffle -> symbolic permutation, concretised by forking because the shuffled items are lists; when n! exceeds the "
          "budget the permutation space is reduced (see assumptions)"]
 BOUNDS = {
-    "quick": "every labelled loop-free graph on 1..4 vertices (isolated vertices allowed) and every 5-vertex graph with <= 4 edges, size limit in "
+    "quick": "every labelled loop-free graph on 1..4 vertices (isolated vertices allowed) and every 5-vertex graph with <= 4 edges; 4-vertex graphs also with descending / mixed insertion order and as a second cover of "
+             "one graph object after an edge was moved in place; size limit in "
              "{0,2,3,4}; full n! orderings when n! <= 120, otherwise the block reduction",
     "thorough": "every graph on <= 5 vertices, 6-vertex graphs with <= 7 edges; full n! when <= 720",
 }
@@ -35,6 +36,13 @@ def configs(tier):
     for n in range(1, 5):
         for ms in (0, 2, 3, 4):
             cfgs.append({"name": f"n{n}-max{ms}", "n": n, "max_size": ms, "maxe": n * (n - 1) // 2, "tier": tier})
+    # vertices and edges inserted in descending / mixed order (adjacency and clique lists are then not sorted)
+    for order in ("desc", "mixed"):
+        for ms in (0, 3):
+            cfgs.append({"name": f"n4-max{ms}-{order}", "n": 4, "max_size": ms, "maxe": 6, "tier": tier, "order": order})
+    # a second cover of the same graph object after it was changed in place (same numbers of vertices and edges)
+    for ms in (0, 3):
+        cfgs.append({"name": f"n4-max{ms}-second-call", "n": 4, "max_size": ms, "maxe": 4, "tier": tier, "second": True})
     for ms in (0, 2, 3, 4):
         cfgs.append({"name": f"n5-max{ms}", "n": 5, "max_size": ms, "maxe": 4 if q else 10, "tier": tier})
     if not q:
@@ -87,10 +95,37 @@ def path(ctx, cfg):
         ctx.assume(cnt <= cfg["maxe"])
     edges = [p for p, b in zip(pairs, bits) if ctx.fork_bool(b)]
     G = nx.Graph()
-    G.add_nodes_from(range(n))
-    G.add_edges_from(edges)
+    order = cfg.get("order", "asc")
+    if order == "asc":
+        G.add_nodes_from(range(n))
+        G.add_edges_from(edges)
+    elif order == "desc":
+        G.add_nodes_from(reversed(range(n)))
+        G.add_edges_from((b, a) for a, b in reversed(edges))
+    else:
+        G.add_nodes_from([2, 0, 3, 1][:n] if n == 4 else range(n))
+        G.add_edges_from((b, a) if (a + b) % 2 else (a, b) for a, b in edges[::2] + edges[1::2])
     ctx.shuffle_policy = make_policy(FULL[cfg["tier"]])
-    desc = f"n={n} edges={edges} max_size={ms}"
+    desc = f"n={n} edges={edges} insertion={order} max_size={ms}"
+    if cfg.get("second"):
+        # first cover, then move one edge in place (vertex and edge counts unchanged), then cover the same object again
+        def identity(c, orig, ps, rec):  # the order of the first cover is irrelevant for the second one: keep it fixed
+            for j, p in enumerate(ps):
+                c.assume(p == j)
+
+        ctx.shuffle_policy = identity
+        ctx.guard("mpcc-raised", MPCC, G, ms)
+        ctx.shuffle_policy = make_policy(FULL[cfg["tier"]])
+        absent = [p for p in pairs if p not in edges]
+        if edges and absent:
+            i = ctx.fork_int(ctx.int("drop", 0, len(edges) - 1))
+            j = ctx.fork_int(ctx.int("add", 0, len(absent) - 1))
+            G.remove_edge(*edges[i])
+            G.add_edge(*absent[j])
+            edges = sorted([e for k, e in enumerate(edges) if k != i] + [absent[j]])
+            for a, b in G.edges():
+                G.edges[a, b].pop("clique", None)
+            desc = f"n={n} second cover of one graph object after moving an edge: edges={edges} max_size={ms}"
     out = ctx.guard("mpcc-raised", MPCC, G, ms)
     order = None
     for rec in ctx.rng_log:
